@@ -186,6 +186,10 @@ pub fn run(tier: &str, seed: u64, em: &mut Emitter) {
     let mut n: u64 = 0;
     let thorough = tier == "thorough";
     let mut sink = |tag: &str, c: &Case| {
+        if tag == "sys-type-alias" {
+            // open finding C08-type-alias (event-type alias in `events` keys) belongs to C08
+            return;
+        }
         n += 1;
         // the quick tier takes every other case of C08's stream
         if !thorough && n % 2 == 0 {
@@ -201,7 +205,8 @@ pub fn run(tier: &str, seed: u64, em: &mut Emitter) {
         };
         let pert = perturbations(c, &protect);
         let (case, out) = run_one(c, &pert);
-        em.emit(tag, case, out);
+        let accepted = matches!(&out, Sx::L(l) if matches!(l.get(1), Some(Sx::L(m)) if m.get(2) == Some(&Sx::N(0))));
+        em.emit(&format!("{tag}/{}", if accepted { "accepted" } else { "rejected" }), case, out);
     };
     c08::generate(tier, seed ^ 0xC09, &mut sink);
 }
